@@ -1,2 +1,3 @@
 // probe load chain
-int g() { return 41; }
+inherit "/pl3";
+int g() { return h() + 1; }
